@@ -347,7 +347,17 @@ func NamedTypeName(t types.Type) string {
 }
 
 // EnclosingStmts returns the chain of AST nodes from root down to target.
+// SynthOf: nodes a rule synthesised to show a construct in its canonical spelling (an if-chain as a switch), with the
+// source node they stand for.
+var SynthOf = map[ast.Node]ast.Node{}
+
 func PathTo(root ast.Node, target ast.Node) []ast.Node {
+	if orig, isSynth := SynthOf[target]; isSynth {
+		if pth := PathTo(root, orig); pth != nil {
+			return append(pth, target)
+		}
+		return nil
+	}
 	var path []ast.Node
 	var found []ast.Node
 	ast.Inspect(root, func(n ast.Node) bool {
